@@ -59,7 +59,12 @@ func (c *collector) check(scn, oracle, caseID string, detail func() map[string]i
 	}
 	for i := 0; i < 2; i++ {
 		if m2 := guarded(probe); m2 != msg {
-			ev.Broken("%s/%s/%s: verdict not deterministic: %q then %q", scn, oracle, caseID, msg, m2)
+			// Every probe is a pure function of its header and its stub chain (fresh copies, fake clock): a
+			// verdict that changes between identical calls means the engine's answer depends on what it
+			// verified before (state shared between calls), which "accepted iff the rules hold" excludes.
+			oracle, caseID = "verdict-depends-on-verification-history", scn+"/"+oracle
+			msg = fmt.Sprintf("the same call gave %q and then %q", msg, m2)
+			break
 		}
 	}
 	c.mu.Lock()
